@@ -4,6 +4,7 @@ import (
 	"bytes"
 	"fmt"
 	"io"
+	"iter"
 	"math"
 	"os"
 	"path/filepath"
@@ -508,6 +509,21 @@ func c15Write(c *kit.Case, ops []content.Operator, mode int) ([]byte, error) {
 		return nil, err
 	}
 	defer rc.Close()
+	if mode%8 == 3 {
+		// a consumer that reads a header with Read and hands the rest to io.Copy
+		head := make([]byte, 1+mode%97)
+		n, err := io.ReadFull(rc, head)
+		buf.Write(head[:n])
+		if err == io.EOF || err == io.ErrUnexpectedEOF {
+			return buf.Bytes(), nil
+		}
+		if err != nil {
+			return nil, err
+		}
+		c.R.Count("raw_bytes_read_then_copied", 1)
+		_, err = io.Copy(&buf, rc)
+		return buf.Bytes(), err
+	}
 	chunk := make([]byte, 1+mode%61)
 	for {
 		n, err := rc.Read(chunk)
@@ -569,6 +585,45 @@ func c15Scan(raw []byte, mode int, state uint64) ([]content.Operator, error) {
 		return &c15ChunkReader{data: raw, mode: mode, state: state}, nil
 	})
 	return c15Collect(s.NewIter())
+}
+
+// c15ScanTwo reads raw through two iterators of one Stream value which are
+// alive at the same time and advance in turns of random length.
+func c15ScanTwo(raw []byte, mode int, state uint64) (got [2][]content.Operator, errs [2]error) {
+	s := content.NewScanner(func() (io.ReadCloser, error) {
+		return &c15ChunkReader{data: raw, mode: mode, state: state}, nil
+	})
+	its := [2]content.Iter{s.NewIter(), s.NewIter()}
+	var next [2]func() (content.OpName, []pdf.Object, bool)
+	var stop [2]func()
+	for i := range its {
+		next[i], stop[i] = iter.Pull2(its[i].All())
+	}
+	done := [2]bool{}
+	for !done[0] || !done[1] {
+		state = state*6364136223846793005 + 1442695040888963407
+		i := int(state>>40) & 1
+		if done[i] {
+			i = 1 - i
+		}
+		for k := 1 + int(state>>33)%5; k > 0 && !done[i]; k-- {
+			name, args, ok := next[i]()
+			if !ok {
+				done[i] = true
+				break
+			}
+			ca := make([]pdf.Object, len(args))
+			for j, a := range args {
+				ca[j] = gen.Clone(a)
+			}
+			got[i] = append(got[i], content.Operator{Name: name, Args: ca})
+		}
+	}
+	for i := range its {
+		stop[i]()
+		errs[i] = its[i].Err()
+	}
+	return got, errs
 }
 
 func c15FilterNames(dict pdf.Dict) []pdf.Name {
@@ -2054,6 +2109,21 @@ func c15SequenceCase(c *kit.Case) {
 		unsplitOK = false
 	} else {
 		c.R.Count("operators_read_back_equal", int64(len(got)))
+	}
+	if unsplitOK && r.Chance(1, 4) {
+		two, errs := c15ScanTwo(raw, r.Intn(4), r.Uint64())
+		for i := range two {
+			if errs[i] != nil {
+				c.Violationf("two-iterators/scan-error", "iterator %d of two over one Stream value reported %v for %s", i, errs[i], kit.Q(raw))
+			} else if c15CanonSeq(two[i]) != wantCanon {
+				key, detail := c15DiffKey(ops, two[i])
+				c.Violationf("two-iterators/"+key, "iterator %d of two which advance in turns over one Stream value:\n%s\nstream: %s", i, detail, kit.Q(raw))
+			}
+		}
+		c.R.Count("streams_scanned_by_two_iterators_in_turns", 1)
+		if len(raw) > 512 {
+			c.R.Count("streams_over_512_bytes_scanned_by_two_iterators", 1)
+		}
 	}
 	if len(ops) >= 2 {
 		c.Distinct(wantCanon)
